@@ -256,3 +256,24 @@ package stanza
 //@   loop 2
 //@     invariant[C13] se.Type == decoded.Type && se.By == decoded.By && rangeindex < len(decoded.Text)
 //@     invariant[C13] forall k int :: 0 <= k && k <= rangeindex && decoded.Text[k].Data != "" && (forall j int :: k < j && j <= rangeindex ==> decoded.Text[j].Lang != decoded.Text[k].Lang || decoded.Text[j].Data == "") ==> has(se.Text, decoded.Text[k].Lang) && se.Text[decoded.Text[k].Lang] == decoded.Text[k].Data
+
+// C13/C07: UnmarshalIQError parses exactly the start element it was given and
+// returns that IQ in every case; only an IQ of type error has its payload read
+// as a stanza error (from the reader it was given), and then the error - or the
+// failure to read it - is what is returned; any other IQ is returned without
+// an error and without touching the reader.
+//@ func UnmarshalIQError
+//@   ghost parsed IQ
+//@   ghost perr error
+//@   ghost read bool = false
+//@   callsite NewIQ#1
+//@     assert[C13] arg0 == start
+//@     after: parsed = ret0
+//@     after: perr = ret1
+//@   callsite UnmarshalError#1
+//@     assert[C13] arg0 == r && perr == nil && parsed.Type == "error"
+//@     after: read = true
+//@   ensures[C13] result0 == parsed
+//@   ensures[C13] perr != nil ==> result1 == perr && !read
+//@   ensures[C13] perr == nil && parsed.Type != "error" ==> result1 == nil && !read
+//@   ensures[C13] perr == nil && parsed.Type == "error" ==> read && result1 != nil
